@@ -509,7 +509,7 @@ func runIn(k *kase, sess *session) (impl, oracle, class string) {
 	for _, nd := range senders {
 		select {
 		case <-nd.done:
-		case <-time.After(15 * time.Second):
+		case <-time.After(patience * 15 * time.Second):
 			return "stuck non-submitter", "stuck-non-submitter: the pipeline of a member that is not the derived submitter did not return (it waits for shares as if it were the submitter)", "stuck"
 		}
 		sent := nd.sent()
@@ -543,7 +543,7 @@ func runIn(k *kase, sess *session) (impl, oracle, class string) {
 	started := false
 	toStage := 0 // messages that will reach the submitter's recovery stage besides its own
 	deliver := func(nd *node, m *vss.Signature) bool {
-		return nd.p.DeliverTimeout([]byte("peer"), m, 15*time.Second)
+		return nd.p.DeliverTimeout([]byte("peer"), m, patience*15*time.Second)
 	}
 	for _, it := range k.sched {
 		target := sn
@@ -598,19 +598,19 @@ func runIn(k *kase, sess *session) (impl, oracle, class string) {
 			// no own share: since /repo 7f58072 the pipeline finishes without registering or collecting
 			select {
 			case <-sn.done:
-			case <-time.After(10 * time.Second):
+			case <-time.After(patience * 10 * time.Second):
 				if !reported() {
 					return "stuck no-content", "stuck-without-content: the submitter could not compute the content and its pipeline neither returned nor reported within 10 s (it waits for the peers' shares)", "stuck"
 				}
 			}
-		} else if !sn.lg.WaitCount(stageEvent, sn.evBase+1+toStage+1, func() bool { return reported() || returned() }, 10*time.Second) && !reported() && !returned() {
+		} else if !sn.lg.WaitCount(stageEvent, sn.evBase+1+toStage+1, func() bool { return reported() || returned() }, patience*10*time.Second) && !reported() && !returned() {
 			// own share + deliveries + sentinel; the sentinel is received only after the previous message was processed
 			return "stuck stage", "stuck: the submitter's recovery stage neither reported nor consumed its inputs", "stuck"
 		}
 		if reported() {
 			select { // the pipeline returns right after its single report
 			case <-sn.done:
-			case <-time.After(30 * time.Second):
+			case <-time.After(patience * 30 * time.Second):
 				return "stuck after report", "stuck: handleQuery did not return after reporting", "stuck"
 			}
 		}
@@ -855,6 +855,12 @@ func risky(k *kase) bool {
 	return false
 }
 
+// patience multiplies every wall-clock bound of the harness. The bounds only end a case in which a pipeline
+// or loop is really stuck; what a case outputs is decided by synchronisation (log-event counts, sentinel
+// messages, channel hand-overs), never by a bound being met in time. A case that ends with a verdict is run
+// again, alone on fresh nodes with patience 6, and only a reproduced verdict is reported (exec).
+var patience time.Duration = 1
+
 // stuckCases counts cases in which a pipeline or loop stopped making progress (each costs up to
 // 30 s and leaks goroutines): after three of them the remaining cases are not run.
 var stuckCases int32
@@ -915,6 +921,25 @@ func runHist(line string) (impl, oracle, class string) {
 }
 
 func exec(line string) (res h.Result) {
+	res = exec1(line)
+	if res.Oracle == "" || os.Getenv("VERIF_C01_CHILD") != "" {
+		return
+	}
+	first := res
+	patience = 6
+	res = exec1(line)
+	patience = 1
+	if res.Oracle == "" {
+		sig := first.Oracle
+		if i := strings.Index(sig, ":"); i >= 0 {
+			sig = sig[:i]
+		}
+		res.Class = "verdict of the first run not reproduced (" + sig + "); " + res.Class
+	}
+	return
+}
+
+func exec1(line string) (res h.Result) {
 	if strings.HasPrefix(line, "hist ") {
 		res.Nontrivial = true
 		if atomic.LoadInt32(&stuckCases) >= 3 {
@@ -922,7 +947,7 @@ func exec(line string) (res h.Result) {
 			return
 		}
 		res.Impl, res.Oracle, res.Class = runHist(line)
-		if strings.Contains(res.Impl, "stuck") {
+		if strings.Contains(res.Impl, "stuck") && patience > 1 {
 			atomic.AddInt32(&stuckCases, 1)
 		}
 		return
@@ -934,7 +959,7 @@ func exec(line string) (res h.Result) {
 			return
 		}
 		res.Impl, res.Oracle, res.Class = runEv(parseEv(line))
-		if strings.HasPrefix(res.Impl, "stuck") {
+		if strings.HasPrefix(res.Impl, "stuck") && patience > 1 {
 			atomic.AddInt32(&stuckCases, 1)
 		}
 		return
@@ -946,7 +971,7 @@ func exec(line string) (res h.Result) {
 		return
 	}
 	defer func() {
-		if strings.HasPrefix(res.Impl, "stuck") {
+		if strings.HasPrefix(res.Impl, "stuck") && patience > 1 {
 			atomic.AddInt32(&stuckCases, 1)
 		}
 	}()
